@@ -1036,6 +1036,8 @@ class JSExec(GoExec, SpecMixin, CallsMixin):
             arr = fresh(name + '.arr', ArrII); n = fresh(name + '.len'); k = fresh('k!wf')
             st.pc += [n >= 0, n <= MAXLEN, z3.ForAll([k], z3.And(z3.Select(arr, k) >= 0, z3.Select(arr, k) <= 255))]
             return StrV(arr, z3.IntVal(0), n)
+        if ty == 'pair':       # a two-element array of numbers, e.g. [rune, width]
+            return JSTuple([self.make_param(st, name + '._0', 'num'), self.make_param(st, name + '._1', 'num')])
         if ty in ('i64', 'u64'):
             h, l = fresh(name + '.high', sort), fresh(name + '.low', sort)
             if ty == 'i64': rng(h, -TWO31, TWO31 - 1)
